@@ -176,12 +176,25 @@ Definition snk_plain (octet : bool) : snk :=
   {| k_octet := octet; k_got := []; k_script := []; k_calls := 0 |}.
 
 (* ---------------- source-to-sink plumbing (no getbuffer extension: the library provides none) ---------------- *)
-(* sts_cbc: one octet; the result is the sink's result *)
-Definition sts_cbc (s : src) (k : snk) : dres * src * snk :=
+(* sts_cbc: one octet; the result is the sink's result.  Each of the two single-octet driver calls is repeated while the
+   driver reports that it transferred nothing (a zero return consumes one script event, the exhausted script always
+   transfers or ends the stream: the recursion is over the script and its [] branch is unreachable -
+   Proof/EndpointsTotal.v, get_octet_nz_spec / put_octet_nz_spec) *)
+Fixpoint get_octet_nz (sc : list ev) (s : src) : dres * list N * src :=
   match source_get_octet s with
+  | (DOk c, [], s') => match sc with [] => (DOk c, [], s') | _ :: r => get_octet_nz r s' end
+  | res => res
+  end.
+Fixpoint put_octet_nz (sc : list ev) (k : snk) (x : N) : dres * snk :=
+  match sink_put_octet k x with
+  | (DOk c, k') => if c =? 0 then match sc with [] => (DOk c, k') | _ :: r => put_octet_nz r k' x end else (DOk c, k')
+  | res => res
+  end.
+Definition sts_cbc (s : src) (k : snk) : dres * src * snk :=
+  match get_octet_nz (s_script s) s with
   | (DErr e, _, s') => (DErr e, s', k)
-  | (DOk _, [], s') => (DErr (EOTHER 0), s', k)      (* driver returned 0: outside the modelled domain *)
-  | (DOk _, x :: _, s') => let '(r, k') := sink_put_octet k x in (r, s', k')
+  | (DOk _, [], s') => (DErr (EOTHER 0), s', k)      (* unreachable *)
+  | (DOk _, x :: _, s') => let '(r, k') := put_octet_nz (k_script k) k x in (r, s', k')
   end.
 
 Fixpoint sts_n_cbc (n : nat) (total : N) (s : src) (k : snk) : dres * src * snk :=
